@@ -15,39 +15,49 @@ open FontVerif.Field
 /-- **The owned value survives the round trip.**  Converting what the reader returns for the compiled bytes back to
 an owned value (`FromObjRef`: keep the owned fields) gives the value that was written, except that fields gated by a
 version/flag condition that does not hold for the *written* version/flags come back absent (`dropGated`): they were
-never written. -/
-theorem owned_roundtrip (ext : Ext) (as : List Assume) (ws : List WF) (rs : List RF) (o : Obj)
-    (bytes rest : Bytes) (view : View)
+never written.  `args`: the external arguments of a `FontReadWithArgs` reader (any values). -/
+theorem owned_roundtrip_args (ext : Ext) (as : List Assume) (ws : List WF) (rs : List RF) (o : Obj)
+    (args : View) (bytes rest : Bytes) (view : View)
     (hc : compatU as ws rs = true)
-    (hassume : ∀ x ∈ as, x.holds o)
-    (he : emit ext o ws [] = some (bytes, view))
+    (hassume : ∀ x ∈ as, x.holds o view)
+    (he : emit ext o ws args = some (bytes, view))
     (hr : usesRest rs = true → rest = []) :
-    ∃ view', parse rs [] (bytes ++ rest) = some (view', rest) ∧ toObj ws view' = dropGated ws view' o := by
-  refine ⟨view, read_write_core ext as ws rs o bytes rest view hc hassume he hr, ?_⟩
+    ∃ view', parse rs args (bytes ++ rest) = some (view', rest) ∧ toObj ws view' = dropGated ws view' o := by
+  refine ⟨view, read_write_core ext as ws rs o args bytes rest view hc hassume he hr, ?_⟩
   have hwf := compatAux_wfW as ws rs [] hc
-  obtain ⟨_, hb⟩ := emit_view ext o ws [] [] bytes view hwf he
+  obtain ⟨_, hb⟩ := emit_view ext o ws [] args bytes view hwf he
   unfold toObj dropGated
   apply List.map_congr_left
   intro w hw
   have hw' := List.mem_filter.mp hw
   rw [hb w hw'.1 hw'.2]
 
+/-- `owned_roundtrip_args` for readers without external arguments (`FontRead`) -/
+theorem owned_roundtrip (ext : Ext) (as : List Assume) (ws : List WF) (rs : List RF) (o : Obj)
+    (bytes rest : Bytes) (view : View)
+    (hc : compatU as ws rs = true)
+    (hassume : ∀ x ∈ as, x.holds o view)
+    (he : emit ext o ws [] = some (bytes, view))
+    (hr : usesRest rs = true → rest = []) :
+    ∃ view', parse rs [] (bytes ++ rest) = some (view', rest) ∧ toObj ws view' = dropGated ws view' o :=
+  owned_roundtrip_args ext as ws rs o [] bytes rest view hc hassume he hr
+
 /-- **Recompiling the re-read value gives the same bytes.**  If the written value is in normal form (it lists exactly
 its owned fields, and a gated field is present exactly when the written version/flags require it: `o = dropGated …`),
 the re-read owned value *is* the written value, so compiling it again produces the same bytes (for the same
 interpretation of the hand-written computed fields). -/
-theorem recompile_same (ext : Ext) (as : List Assume) (ws : List WF) (rs : List RF) (o : Obj)
-    (bytes rest : Bytes) (view : View)
+theorem recompile_same_args (ext : Ext) (as : List Assume) (ws : List WF) (rs : List RF) (o : Obj)
+    (args : View) (bytes rest : Bytes) (view : View)
     (hc : compatU as ws rs = true)
-    (hassume : ∀ x ∈ as, x.holds o)
-    (he : emit ext o ws [] = some (bytes, view))
+    (hassume : ∀ x ∈ as, x.holds o view)
+    (he : emit ext o ws args = some (bytes, view))
     (hr : usesRest rs = true → rest = [])
     (hn : o = dropGated ws view o) :
-    ∃ view', parse rs [] (bytes ++ rest) = some (view', rest) ∧ toObj ws view' = o ∧
-      emit ext (toObj ws view') ws [] = some (bytes, view) := by
-  obtain ⟨view', hp, ho⟩ := owned_roundtrip ext as ws rs o bytes rest view hc hassume he hr
+    ∃ view', parse rs args (bytes ++ rest) = some (view', rest) ∧ toObj ws view' = o ∧
+      emit ext (toObj ws view') ws args = some (bytes, view) := by
+  obtain ⟨view', hp, ho⟩ := owned_roundtrip_args ext as ws rs o args bytes rest view hc hassume he hr
   have hv : view' = view := by
-    have := read_write_core ext as ws rs o bytes rest view hc hassume he hr
+    have := read_write_core ext as ws rs o args bytes rest view hc hassume he hr
     rw [hp] at this
     injection this with this
     injection this
@@ -57,17 +67,48 @@ theorem recompile_same (ext : Ext) (as : List Assume) (ws : List WF) (rs : List 
   · rw [ho, ← hn]
     exact he
 
+/-- `recompile_same_args` for readers without external arguments -/
+theorem recompile_same (ext : Ext) (as : List Assume) (ws : List WF) (rs : List RF) (o : Obj)
+    (bytes rest : Bytes) (view : View)
+    (hc : compatU as ws rs = true)
+    (hassume : ∀ x ∈ as, x.holds o view)
+    (he : emit ext o ws [] = some (bytes, view))
+    (hr : usesRest rs = true → rest = [])
+    (hn : o = dropGated ws view o) :
+    ∃ view', parse rs [] (bytes ++ rest) = some (view', rest) ∧ toObj ws view' = o ∧
+      emit ext (toObj ws view') ws [] = some (bytes, view) :=
+  recompile_same_args ext as ws rs o [] bytes rest view hc hassume he hr hn
+
+/-- **Read-back of a compiled value whose reader takes external arguments** (`FontReadWithArgs::read_with_args`:
+the glyph count from `maxp`, the metric count from `hhea`, the mark class count / value formats of the parent
+subtable, the axis count …).  The arguments are universally quantified: `args` is any initial view (the translator
+gives argument `i` the id `argBase + i`); the writer never reads them.  Whatever the reader derives from them — an
+element count, the size of a `ComputedArray` element — must be what the writer wrote: that is the listed,
+*named* hypothesis (`Assume.lenIsExpr`: "the array has as many elements as the reader computes from its arguments
+and the written fields", `Assume.elemLen`: "every element has the scalars of the layout the reader computes"),
+evaluated on `view` = the arguments + what was written.  Under them every field reads back what was written and
+exactly the written bytes are consumed. -/
+theorem read_write_args (ext : Ext) (as : List Assume) (ws : List WF) (rs : List RF) (o : Obj)
+    (args : View) (bytes rest : Bytes) (view : View)
+    (hc : compatU as ws rs = true)
+    (hassume : ∀ x ∈ as, x.holds o view)
+    (he : emit ext o ws args = some (bytes, view))
+    (hr : usesRest rs = true → rest = []) :
+    parse rs args (bytes ++ rest) = some (view, rest) :=
+  read_write_core ext as ws rs o args bytes rest view hc hassume he hr
+
 /-- **Read-back of a compiled value (generated code, field level), under listed assumptions.**  As `read_write`,
-for the pairs whose writer does not itself tie a count field to its array: the statement holds for every value
-that satisfies the listed conditions (`Assume.holds`). -/
+for the pairs whose writer does not itself tie a count field to its array (or whose reader computes a count / an
+element size the writer does not look at): the statement holds for every value that satisfies the listed conditions
+(`Assume.holds`; `view` = what was written). -/
 theorem read_write_under (ext : Ext) (as : List Assume) (ws : List WF) (rs : List RF) (o : Obj)
     (bytes rest : Bytes) (view : View)
     (hc : compatU as ws rs = true)
-    (hassume : ∀ x ∈ as, x.holds o)
+    (hassume : ∀ x ∈ as, x.holds o view)
     (he : emit ext o ws [] = some (bytes, view))
     (hr : usesRest rs = true → rest = []) :
     parse rs [] (bytes ++ rest) = some (view, rest) :=
-  read_write_core ext as ws rs o bytes rest view hc hassume he hr
+  read_write_args ext as ws rs o [] bytes rest view hc hassume he hr
 
 /-- **Read-back of a compiled value (generated code, field level).**  For every compatible (writer program, reader
 layout) pair, every interpretation of the hand-written `compute_*` functions, and every value on which `write_into`
@@ -82,6 +123,32 @@ theorem read_write (ext : Ext) (ws : List WF) (rs : List RF) (o : Obj) (bytes re
     (hr : usesRest rs = true → rest = []) :
     parse rs [] (bytes ++ rest) = some (view, rest) :=
   read_write_under ext [] ws rs o bytes rest view hc (by intro x hx; cases hx) he hr
+
+/-- **Format enums read back as the variant that was written.**  The generated `FontWrite` of a format enum delegates
+to the variant (`match self { Self::X(item) => item.write_into(writer) }`); the generated `FontRead` reads the format
+field and dispatches on it.  If every variant's writer starts with its own format constant, the constants are
+pairwise distinct and every variant is a compatible pair (`enumCompat`, checked per generated enum), then for every
+variant and every value of it: the reader selects that same variant (it reports `v.fmt`) and returns every field as
+written. -/
+theorem enum_read_write (ext : Ext) (hw : Nat) (vs : List Variant) (v : Variant) (o : Obj)
+    (args : View) (bytes rest : Bytes) (view : View)
+    (hc : enumCompat hw vs = true) (hv : v ∈ vs)
+    (hassume : ∀ x ∈ v.as, x.holds o view)
+    (he : emit ext o v.w args = some (bytes, view))
+    (hr : usesRest v.r = true → rest = []) :
+    parseEnum hw vs args (bytes ++ rest) = some (v.fmt, view, rest) := by
+  obtain ⟨hs, hcv⟩ := enumCompat_mem hw vs v hc hv
+  obtain ⟨bs, hb, hlt⟩ := emit_startsWithFormat ext hw v o args bytes view hs he
+  have hp := read_write_core ext v.as v.w v.r o args bytes rest view hcv hassume he hr
+  unfold parseEnum
+  have hl : ¬ (bytes ++ rest).length < hw := by
+    rw [hb]
+    simp [be_length]
+  rw [if_neg hl]
+  have ht : (bytes ++ rest).take hw = be hw v.fmt := by
+    rw [hb, List.append_assoc, take_be_append]
+  rw [ht, beVal_be _ _ hlt, enumCompat_find hw vs v hc hv]
+  simp only [hp]
 
 /-! ## instances for generated pairs (the per-pair `compat` facts are in `Gen/WriteProgs.lean`) -/
 
